@@ -840,6 +840,8 @@ def shrink(ctx, CNF, text, u, cls):
                 for j in range(len(toks)):
                     yield '\n'.join(ls[:i] + [' '.join(toks[:j] + toks[j + 1:])] + ls[i + 1:])
     cur = text
+    if len(text) > 20000 or len(text.split()) > 1500:
+        return text          # every candidate is sent to the model: not on the large texts of the thresholds stream
     for _ in range(60):
         cands = [c for c in dict.fromkeys(candidates(cur)) if c != cur and latin1(c)]
         if not cands:
@@ -864,8 +866,11 @@ def report_text_disagreement(ctx, CNF, stream, t, u, meta, g, m):
         gs, ms = impl_read(CNF, small, u), ctx.model.call(Sym('parse_dimacs'), u, small)
     except Exception:  # noqa
         small, gs, ms = t, g, m
-    rp = dict(input=dict(text=small, universal_newlines=u, original_text=t[:500], mutation=meta),
-              implementation=gs, model=ms)
+    def brief(v):
+        return v if len(str(v)) < 4000 else [v[0], v[1], '%d clauses' % len(v[2])] if v[0] == 'ok' else str(v)[:4000]
+    rp = dict(input=dict(text=small if len(small) <= 20000 else small[:10000] + '\n... (%d characters) ...\n' % len(small) + small[-2000:],
+                         universal_newlines=u, original_text=t[:500], mutation=meta),
+              implementation=brief(gs), model=brief(ms))
     if gs[0] == 'exc':
         ctx.violation('counterexample', 'the DIMACS reader failed with %s (not ValueError) on a text' % gs[1], rp, True,
                       site='parse_dimacs', cls=cls)
